@@ -456,11 +456,16 @@ class Dyn(Entry):
                 vs = vs[:2] + [v for v in vs if v[4] == "ro"][:1]
             else:
                 vs = variants(d, ctx, full)
+            # value seeds: 0 always (so that corpus cases and replays have twins), plus one derived from the run's seed (VERIF_SEED)
+            vs0 = 100 + getattr(ctx, "seed", 0) % 9973
             seeds = [0] if (ctx.quick() and round == 0) else ([0, 1] if round == 0 else [2 + round, 12 + round])
+            if round == 0:
+                seeds = seeds + [vs0]
             if d["slow"]:
                 seeds = seeds[:1]
             for (dt, o, lay, nd, mode) in vs:
-                for vs_ in (seeds if mode == "plain" and lay != "reversed" else seeds[:1]):
+                first_plain = mode == "plain" and lay == "contig" and o == "native" and dt == d["dt"][0] and nd == d["nd"][0]
+                for vs_ in (seeds if mode == "plain" and lay != "reversed" and (not ctx.quick() or first_plain) else seeds[:1]):
                     c = {"driver": d["name"], "dt": dt, "order": o, "layout": lay, "nd": nd, "vseed": vs_,
                          "family": "%s/%s" % (self.fam, d["func"])}
                     if mode != "plain":
@@ -492,6 +497,8 @@ class Dyn(Entry):
         args = {}
         mode = c.get("mode", "plain")
         nelem = NELEM.get(mode, 6)
+        if mode == "long" and d["dt"] == drv.REC:
+            nelem = 515           # 2**9 + 3 rows of a table (a 4099-row table is a 0.6 MB literal: coqc's parser overflows its stack)
         for p in arr:
             args[p] = make_array(d["gen"][p], c["dt"], c["order"], c["layout"], c["nd"], rs, nelem=nelem)
         checked = [p for p in arr if p not in d["exempt"]]
@@ -681,7 +688,8 @@ def static_step(ctx, only=None):
         nums = vals_by.get(n)
         ok = bool(nums) and nums[0] == 0
         STATIC_OK[n] = ok
-        RET_STATIC[n] = nums[1:] if ok else []
+        has_ret = any(v == "0:<ret>" for v in ex[n].get("names", {}).values())
+        RET_STATIC[n] = nums[1:] if (ok and has_ret) else []     # a driver without a return slot returns None
         ctx.obligation("frame_ok %s  {%s | %s | unchanged: %s}" % (n, d["func"], d["valuation"] or "default options", ",".join(ex[n]["checked"])), ok)
         ctx.count("static:%s" % ("discharged" if ok else "FAILED"))
         if not ok:
